@@ -77,7 +77,16 @@ def run(prog: Program, res: Result, tier: str) -> None:
         dname = divs[0].value.id
         ds = op.flow.reaching(dname, op.cfg.node_for(divs[0]))
         inits = [d for d in ds if d.kind == "assign" and isinstance(d.value, ast.Constant) and d.value.value == 0]
-        augs = [d for d in ds if d.kind == "aug" and isinstance(d.stmt.op, ast.Add) and norm(d.value) == lp.count and lp.in_body(d.stmt)]
+
+        def adds_count(d) -> bool:
+            """`n += count` or `n = n + count` (either operand order) inside the loop"""
+            if not lp.in_body(d.stmt):
+                return False
+            if d.kind == "aug":
+                return isinstance(d.stmt.op, ast.Add) and norm(d.value) == lp.count
+            return d.kind == "assign" and d.value is not None and PolyEnv().poly(d.value) == Poly.sym(dname) + Poly.sym(lp.count)
+
+        augs = [d for d in ds if adds_count(d)]
         okdiv = len(inits) == 1 and len(augs) == 1 and len(ds) == 2 and \
             op.cfg.dominates(op.cfg.node_for(lp.node), op.cfg.node_for(divs[0]))
     if okdiv:
@@ -169,8 +178,21 @@ def check_push_data(prog: Program, res, rule: str) -> None:
         else:
             c = pushes[0]
             md = [k.value for k in c.keywords if k.arg == "mode"] + c.args[2:3]
-            okp = len(c.args) >= 2 and norm(c.args[0]) == lp.data and norm(c.args[1]) == lp.index and md and \
-                isinstance(md[0], ast.Constant) and md[0].value == mode
+            def is_mode(e) -> bool:
+                if isinstance(e, ast.Constant):
+                    return e.value == mode
+                # a keyword parameter of this method whose default is the mode of this entry point
+                if isinstance(e, ast.Name) and e.id in fn.params:
+                    a_ = fn.node.args
+                    names = [x.arg for x in (*a_.posonlyargs, *a_.args)]
+                    dflt = dict(zip(reversed(names), reversed(a_.defaults)))
+                    dflt.update({k.arg: d for k, d in zip(a_.kwonlyargs, a_.kw_defaults) if d is not None})
+                    d = dflt.get(e.id)
+                    stored = any(isinstance(n, ast.Name) and n.id == e.id and isinstance(n.ctx, ast.Store) for n in ast.walk(fn.node))
+                    return isinstance(d, ast.Constant) and d.value == mode and not stored
+                return False
+
+            okp = len(c.args) >= 2 and norm(c.args[0]) == lp.data and norm(c.args[1]) == lp.index and bool(md) and is_mode(md[0])
             if okp:
                 res.ok(rule, fn, c, f"each block and its index are pushed once (mode={mode}); block 0 initialises min/max", key=key)
             else:
